@@ -35,7 +35,7 @@ PLAN = {
     "C10": {"mc": ["MC_Wire", "MC_Rx"], "drivers": [D("frames"), D("chains"), D("ext")]},
     "C11": {"mc": ["MC_Frag", "MC_FragReal", "MC_FragLive"], "drivers": [D("lattice"), D("chains")]},
     "C12": {"mc": ["MC_Crc"], "drivers": [D("crc"), D("chains"), D("lattice"), D("ext")]},
-    "C13": {"mc": ["MC_Wire"], "drivers": [D("extnew"), D("ext")]},
+    "C13": {"mc": ["MC_Wire", "MC_Frag"], "drivers": [D("extnew"), D("ext")]},
     "C14": {"mc": ["MC_Header"], "drivers": [D("hdr")], "exhaustive": True},
     "C15": {"mc": ["MC_Labels"], "drivers": [D("labels"), D("labels", "--scn", "@gen:Gen_Labels"), D("lattice")]},
     "C16": {"mc": ["MC_Rx"], "drivers": [D("rxscn", "--scn", "@gen:Gen_Rx"), D("fuzzrx"), D("faults")]},
